@@ -3,6 +3,7 @@ real-file samples, driver (de)serialisation, supp loading."""
 import ast
 import glob
 import os
+import re
 import sys
 
 from . import common
@@ -40,8 +41,8 @@ def is_ascii(s):
 
 
 def parser_lines(src):
-    """the lines the parser numbers (source read with universal newlines: only '\\n' separates)"""
-    return src.split('\n')
+    """the lines the tokenizer numbers: \\n, \\r\\n and \\r end a line, nothing else does"""
+    return re.split('\r\n|\r|\n', src)
 
 
 # ----------------------------------------------------------------------------- real files
@@ -392,6 +393,8 @@ FIXED_LAYOUTS = [
     'try: tt = 1\nexcept E as ex: print(ex, tt); tt = 2\n', 'import os; os; import sys as os\n', 'class C: cc = 1; dd = cc; cc = 2\n',
     'x = 1\nwhile x: import mm as nm; nm; from q import nm\n', 'x = 1\nfor k in x: (k, jj); jj = k\n', 'x = [1]\nm = [[uu for uu in vv] for vv in x]\n',
     'x = 1\nwhile x: ff(); ff = lambda: 1\n', 'x = 1\nwhile x: gg(); \\\n  hh = gg; gg = 1\n',
+    'x = 1\r\nimport os\r\ndef f(): pass\r\n', 'x = 1\rimport os\rdef f(): pass\r', 'import a\n# \x0b\nimport b # \x1c\nimport c\nz = "\x1d\x1e"\nimport d\n',
+    'x = "\x85\u2028\u2029"\nimport os\n', '# \x0c\x0c\nclass A: pass\n\x0c\n\x0cdef f(): pass\n',
     'class A[T]: pass\n', 'def f[T](x): pass\n', 'class A [T]: pass\n', 'async def f[T, *U](x): pass\n',
 ]
 
